@@ -369,7 +369,7 @@ func runAddCase(o *Oracle, c *AddCase, rep *Report) {
 	ids := make([][]uint32, c.Goroutines)
 	var dupOrRange atomic.Int64
 	var mu sync.Mutex
-	res := watchdog(120*time.Second, func() string {
+	res := watchdog(200*time.Second, func() string {
 		var wg sync.WaitGroup
 		per := c.Total / c.Goroutines
 		for g := 0; g < c.Goroutines; g++ {
